@@ -334,3 +334,18 @@ Definition C30_across_b (f : flow) (bs : list env) (impl : list (list val)) : bo
 Definition chk30_across (f : flow) (ticks : list (list (list val))) (impl : list (list val)) : N :=
   let bs := map mkenv ticks in
   verdict (ticks_agree (flow_exact f) impl (flow_run f bs)) (C30_across_b f bs impl).
+
+(* ------------------------------------------------------------------ kind judgement vs builder metadata
+   one entry per translated stream node: (subterm, (Bounded?, (TotalOrder?, ExactlyOnce?))) as
+   recorded by the builder; the model's judgement must agree on every node *)
+Definition chk_kinds_s (l : list (snode * (bool * (bool * bool)))) : N :=
+  if forallb (fun e => let n := fst e in
+                       Bool.eqb (kbound n) (fst (snd e)) && Bool.eqb (ord n) (fst (snd (snd e)))
+                       && Bool.eqb (kretry n) (snd (snd (snd e)))) l
+  then 0%N else 1%N.
+(* inside a tick everything is Bounded; ExactlyOnce except under an explicit retry cast (skipped) *)
+Definition chk_kinds_b (l : list (bnode * (bool * (bool * bool)))) : N :=
+  if forallb (fun e => let n := fst e in
+                       Bool.eqb true (fst (snd e)) && Bool.eqb (bord n) (fst (snd (snd e)))
+                       && Bool.eqb true (snd (snd (snd e)))) l
+  then 0%N else 1%N.
